@@ -602,7 +602,13 @@ func (vm *VM) convert(from, to types.Type, v Value) Value {
 			if sb, ok := v.(*SymBytes); ok {
 				return sb.S
 			}
-			s := v.(Slice)
+			if blob, ok := v.(*JSONBlob); ok {
+				return &Opaque{What: "JSON text of a value", Blob: blob}
+			}
+			s, isSlice := v.(Slice)
+			if !isSlice {
+				vmErr("conversion of %s to string", describe(v))
+			}
 			if eb.Kind() == types.Byte || eb.Kind() == types.Uint8 {
 				return strFromBytes(append([]Value{}, s...))
 			}
